@@ -45,12 +45,13 @@ CHECKS = [
      "design_ref": "DESIGN.md section 3, C03",
      "note": "Partial: heap-shape correctness of _type_modify_decl / _fix_decl_name_type / fix_atomic_specifiers for unbounded chains would need shape analysis (not claimed).",
      "technique": "flow-sensitive def-use wiring comparison + sibling cross-check of the specifier loops"},
-    {"id": "C04", "engine": "E0+E1b", "level": "other",
+    {"id": "C04", "engine": "E0+E1+E1b", "level": "other",
      "text": "Scope typestate (who may push/pop, callbacks fire exactly on braces), innermost-first lookup rule, identifier classification order in the lexer, and the registration table (which call site registers which names as typedef / identifier, "
-             "parameters only when a body follows) decided structurally. The timing clause (look-ahead tokens classified before a declaration is reduced) is not decided.",
-     "design_ref": "DESIGN.md section 3, C04",
-     "note": "Partial by design: run-time interleaving of lexing and reduction is out of reach of a static argument.",
-     "technique": "typestate / who-may-call rules + structural loop rule + def-use wiring of registration sites"},
+             "parameters only when a body follows) decided structurally. The timing clause is decided on the event automata of the parser (E1): no token that follows a declarator is consumed before that declarator's name is registered (R-C04.6), "
+             "and no selection / iteration statement registers a name outside the brace pairs it consumes (R-C04.7); the violations that exist today are known findings D35 / D40.",
+     "design_ref": "DESIGN.md section 3, C04 and 11.10",
+     "note": "The order of consumption and registration is decided per production clone on the extracted automata; the exact moment at which the lexer classifies a buffered look-ahead token (one token of look-ahead) is approximated by the consumption of the token before it.",
+     "technique": "typestate / who-may-call rules + structural loop rule + def-use wiring of registration sites + path analysis (declarator - consumption - registration order, brace depth) on the extracted event automata"},
     {"id": "C05", "engine": "E1+E1b", "level": "other",
      "text": "Def-use wiring of the 19 statement-level productions and of the switch-regrouping transform against the reviewed reference (else binds to the nearest if, single-statement bodies, for-clauses in order, block items appended in source order, "
              "one Pragma per directive from its own token); Case/Default class tests agree; per-path append count of the regrouping loop is exactly one.",
